@@ -130,7 +130,17 @@ Row(fmt) ==
            Ct("extra_len", C16, 1, 1, "-"), En("key_size", WD, {"one", "typ"}),
            Ct("block_count", C32, 8, 8, "F02k"),
            En("blk0_type", {"zero", "typ", "n:8", "max"}, {"zero", "typ", "n:8", "max"}),
-           Ct("blk0_size", C32, 1, 0, "-"), Ct("blk0_entries", C32, 61, 64, "-")>>
+           Ct("blk0_size", C32, 1, 0, "-"), Ct("blk0_entries", C32, 61, 64, "-"),
+           \* the per-block headers of the entry blocks: type 2 (count, key size) and type 8 (version, key size,
+           \* offset of the entries inside the block, count)
+           Ct("b2_entry_count", C32, 61, 64, "-"), En("b2_key_size", WD, {"one", "typ"}),
+           En("b8_version", EN, {"typ"}), En("b8_key_size", WD, {"one", "typ"}),
+           Ct("b8_data_offset", C16 \cup {"len"}, 1, 0, "-"), Ct("b8_entry_count", C32, 61, 64, "-")>>
+    [] fmt = "patch_index_block2" ->
+         <<Ct("entry_count", C32, 61, 64, "-"), En("key_size", WD, {"one", "typ"})>>
+    [] fmt = "patch_index_block8" ->
+         <<En("version", EN, {"typ"}), En("key_size", WD, {"one", "typ"}),
+           Ct("data_offset", C16 \cup {"len"}, 1, 0, "-"), Ct("entry_count", C32, 61, 64, "-")>>
     [] fmt \in {"zbsdiff", "zbsdiff_apply"} -> ZbsRow
     [] fmt = "local_idx" ->
          <<Ct("hdr_block_size", {"zero", "typ", "max"}, 1, 0, "-"), En("version", EN, EN),
@@ -178,7 +188,8 @@ Row(fmt) ==
     [] OTHER -> <<>>
 
 Heads == {"blte", "blte_enc_header", "encoding", "archive_index", "root", "install", "download", "size", "tvfs",
-          "patch_archive", "patch_index", "zbsdiff", "local_idx", "lru", "shmem", "dirnames", "zbsdiff_ctl"} \cup TextFormats
+          "patch_archive", "patch_index", "zbsdiff", "local_idx", "lru", "shmem", "dirnames", "zbsdiff_ctl",
+          "patch_index_block2", "patch_index_block8"} \cup TextFormats
 Decomp(fmt) == fmt \in {"blte_decompress", "encoding_blte", "tvfs_blte", "zbsdiff_apply"}
 
 FieldNames(fmt) == {Row(fmt)[i].n : i \in 1..Len(Row(fmt))}
